@@ -57,6 +57,9 @@ def run_case(ctx, S, a, b, m, tag, reuse=None):
         else:
             s = S.TimeScale().domain([a, b])
         _REUSE["scale"] = s
+        if m is not None and hash((a, b, m)) % 12 == 0:
+            m = float(m)  # a count given as a float with an integral value is the same count
+            ctx.path("float-count")
         ticks = s.ticks(m) if m is not None else s.ticks()
         ticks = list(ticks)
     except Exception as e:
